@@ -6,6 +6,7 @@ import (
 	"errors"
 	"fmt"
 	"net"
+	"os"
 	"sort"
 	"strings"
 	"sync"
@@ -30,7 +31,7 @@ const c10NodeTasks = 256 // worker tasks of the node-lookup part; the content ca
 
 func init() {
 	register(&Prop{ID: "C10", Level: "exploration", Procs: 1, Run: runC10, Replay: replayC10, CrashIsViolation: true,
-		Workers: func(e *Env) int { return c10NodeTasks + len(c10ContentCases(e.Thorough())) },
+		Workers: func(e *Env) int { return c10NodeTasks + len(c10ContentCases(e.Thorough())) + len(c10CloseCases()) },
 		Budget: func(t string) time.Duration {
 			if t == "thorough" {
 				return 40 * time.Minute
@@ -588,6 +589,11 @@ func c10LargeCases(thorough bool) (cases []c10NodeCase) {
 
 func runC10(r *mc.Report, e *Env) {
 	r.Rule = "one evaluation = one run of the real lookup (node lookup: newLookup(...).run() over the real Table + loop and a gated query function, one completion order / cancel placement; started node: ContentLookup / TraceContentLookup / Lookup of a real started node against scripted discv5 peers); distinct = distinct (queries in start order, max in flight, result, cancel point) observations"
+	if nc := c10NodeTasks + len(c10ContentCases(e.Thorough())); e.Of > 1 && e.Shard >= nc {
+		r.Count("close_during_lookup_cases", 1)
+		c10CloseRun(r, c10CloseCases()[e.Shard-nc], func() { e.FinishNow(r) })
+		return
+	}
 	if e.Of > 1 && e.Shard >= c10NodeTasks {
 		runC10Content(r, e, e.Shard-c10NodeTasks)
 		return
@@ -708,6 +714,21 @@ func replayC10(r *mc.Report, e *Env, raw json.RawMessage) {
 	}
 	if part.Part == "content" {
 		replayC10Content(r, raw)
+		return
+	}
+	if part.Part == "close-during-refresh-lookup" {
+		var c c10CloseCase
+		json.Unmarshal(raw, &c)
+		c10CloseRun(r, c, func() {
+			for _, v := range r.Violations {
+				fmt.Printf("REPLAY: reproduced %s\n  %s\n", v.Fingerprint, v.Detail)
+			}
+			if len(r.Violations) > 0 {
+				os.Exit(1)
+			}
+			fmt.Println("REPLAY: no violation reproduced")
+			os.Exit(0)
+		})
 		return
 	}
 	var c c10NodeCase
